@@ -22,9 +22,11 @@ META = {
                   'by cancelling the context and waiting for subscriberCount) and each real state is re-judged by TLC.',
     'level_note': 'One partition, one or two groups plus plain subscriptions; steps are executed lock-step (Subscribe '
                   'is atomic under consumersMu, Close under the subscription mutex, the loop clean-up under '
-                  'consumersMu - the interleavings of these critical sections are what is enumerated). "Active" = '
-                  'not closed and loop still running. Bounds: quick <= 4 subscriptions / 7 steps exhaustive, 12 '
-                  'steps simulated; thorough <= 5 / 8 and 2 groups.',
+                  'consumersMu - the interleavings of these critical sections are what is enumerated); real overlap of '
+                  'two Subscribe calls is only explored by Burst steps (two goroutines released together, schedule '
+                  'chosen by the Go runtime, quiescent state judged). "Active" = not closed and loop still running. '
+                  'Bounds: quick <= 4 subscriptions / 7 steps exhaustive model, 5 steps replayed transition cover, 12 '
+                  'steps simulated; thorough 2 groups <= 4 / 6, cover 6 steps, 16 steps simulated.',
     'design_ref': 'DESIGN.md section 6/C13',
 }
 
